@@ -1,26 +1,32 @@
 /-
 Props/C18 — "Compaction never loses or overwrites live data".
 
-Model: `Model/Compaction.lean` (of `storage/compaction.rs` after the two `fix:` commits listed in
-KNOWN_FINDINGS.txt, and of the truncation in `ArchiveManager::compact`). Spec:
+Model: `Model/Compaction.lean` (of `storage/compaction.rs` after the four `fix:` commits listed
+in KNOWN_FINDINGS.txt, and of the truncation in `ArchiveManager::compact`). Spec:
 `Spec/Compaction.lean` (`Disjoint` = pairwise `DataSpan::overlaps` is false, `concatLive`,
-`memmove`). All statements are over `Nat` offsets: on the Rust side they need
-`offset + length < 2^64` and, for the planner, write positions and segment size `< 2^63`
-(unchecked `u64` additions) — listed as assumptions in `lib/cfg/C18.py`.
+`memmove`). Span code: statements over `Nat` offsets first, then the section "`u64` arithmetic"
+proves that the code as compiled (wrapping additions behind the `checked_add` guard) computes the
+same on EVERY input — so `offset + length < 2^64` is no longer an assumption. The planner is over
+`Nat` and needs write positions and segment size `< 2^63` (unchecked `u64` additions) — listed
+as an assumption in `lib/cfg/C18.py`; the real limits (1023 segments of 2^30) are inside
+(`source_constants_tie`).
 
 Changes against DESIGN.md §6: `validate_iff_disjoint` is stated against the crate's own
 `DataSpan::overlaps` (which made the equal-offset/zero-length defect visible, now fixed);
-`compact_eq_concat_live` is false for the empty span set on the tree as it is (finding
-`empty-span-set-noop`), so it appears as counter-witness + `_partial` + exact description of
-the empty case; "offset order" is any arrangement non-decreasing in offset, not the model's own
-sort; the four planner theorems are proved for every population of at most 65536 segments
-(`u16` index) after the one-line repair, plus four more (`plan_never_panics`,
-`plan_moves_whole_frozen_sources`, `plan_sources_moved_once`, `plan_total_truthful`).
+`compact_eq_concat_live` is a full theorem since the empty-list early return was removed
+(former finding `empty-span-set-noop`, /repo 79c672c); "offset order" is any arrangement
+non-decreasing in offset, not the model's own sort; the four planner theorems are proved for
+every population of at most 65536 segments (`u16` index) after the one-line repair, plus four
+more (`plan_never_panics`, `plan_moves_whole_frozen_sources`, `plan_sources_moved_once`,
+`plan_total_truthful`), plus `plan_execution_in_order_safe` (what an executor may assume) and
+the witness `plan_source_may_also_be_target` (what it may not); the `source_*_tie` theorems tie
+the model's constants and small expressions to the Rust text (Generated/CompactionSrc.lean).
 -/
 import Cascette.Proofs.Compaction
 import Cascette.Proofs.CompactionU64
 import Cascette.Proofs.CompactionPlan
 import Cascette.Proofs.CompactionExec
+import Cascette.Proofs.CompactionTie
 namespace Cascette.Props.C18
 open Cascette Cascette.Spec.Compaction Cascette.Model.Compaction
 open Cascette.Proofs.Compaction Cascette.Proofs.CompactionU64 Cascette.Proofs.CompactionPlan
@@ -420,6 +426,92 @@ theorem archive_compact_noop_on_reachable (grew utilLow : Nat → Nat → Bool) 
     (archCompact utilLow a).1 = a ∧ (archCompact utilLow a).2.2 = 0 :=
   archCompact_noop utilLow _ (arch_history_inv grew recs _ (archOpen_inv f))
 
+/-! ## tie to the Rust text (Generated/CompactionSrc.lean is re-extracted from /repo on every run)
+
+These say that the model above computes with exactly the constants and expressions found in the
+current source; they fail to check when the source changes one of them. -/
+
+open Cascette.Generated in
+/-- 128 KiB minimum, at most 16 buffers, shift 17, the `len() <= 1` shortcut, at least 2 merge
+sources, `source_offset: 0`, and the real `MAX_SEGMENTS` / `SEGMENT_SIZE` lie inside the ranges
+the planner theorems are proved for (≤ 65536 segments; 1023 × 2^30 < 2^62). -/
+theorem source_constants_tie :
+    MIN_BUFFER_SIZE = CompactionSrc.min_buffer_size ∧ MAX_BUFFERS = CompactionSrc.max_buffers ∧
+    CompactionSrc.buffer_size_shift = 17 ∧ CompactionSrc.min_buffer_size = 2 ^ 17 ∧
+    CompactionSrc.validate_shortcut_len = 1 ∧ CompactionSrc.min_sources = 2 ∧
+    CompactionSrc.move_source_offset = 0 ∧
+    CompactionSrc.max_segments ≤ 65536 ∧ CompactionSrc.segment_size = 2 ^ 30 ∧
+    CompactionSrc.max_segments * CompactionSrc.segment_size < 2 ^ 62 := by decide
+
+open Cascette.Generated in
+/-- `CompactionFileMover::new`: buffer size and count are the extracted expressions. -/
+theorem source_mover_tie (budget : Nat) :
+    (moverNew budget).bufSize = CompactionSrc.mover_per_buf (CompactionSrc.mover_total budget) ∧
+    (moverNew budget).bufCount = CompactionSrc.mover_count (CompactionSrc.mover_total budget) ∧
+    (moverNew budget).moved = 0 :=
+  Proofs.CompactionTie.moverNew_tie budget
+
+open Cascette.Generated in
+/-- the model's span order is the lexicographic order of the extracted `sort_by_key` tuple. -/
+theorem source_sort_key_tie (a b : Span) :
+    Model.Compaction.Span.le a b = true ↔
+      (CompactionSrc.span_sort_key a.off a.len).1 < (CompactionSrc.span_sort_key b.off b.len).1 ∨
+      ((CompactionSrc.span_sort_key a.off a.len).1 = (CompactionSrc.span_sort_key b.off b.len).1 ∧
+       (CompactionSrc.span_sort_key a.off a.len).2 ≤ (CompactionSrc.span_sort_key b.off b.len).2) :=
+  Proofs.CompactionTie.sort_key_tie a b
+
+open Cascette.Generated in
+/-- `validate_spans`: guard, shortcut, sort, scan — in this order, with the extracted tests. -/
+theorem source_validate_tie (spans : List Span) (a b : Span) (rest : List Span) :
+    (validateSpansU64 spans =
+      if spans.any (fun s => CompactionSrc.span_overflows s.off s.len) then (spans, false)
+      else if spans.length ≤ CompactionSrc.validate_shortcut_len then (spans, true)
+      else (sortSpans spans, adjacentOkW (sortSpans spans))) ∧
+    adjacentOkW (a :: b :: rest) =
+      (!CompactionSrc.adjacent_bad a.off a.len b.off && adjacentOkW (b :: rest)) :=
+  ⟨Proofs.CompactionTie.validate_shape_tie spans, Proofs.CompactionTie.adjacent_scan_tie a b rest⟩
+
+open Cascette.Generated in
+/-- `extract_compact_segment`: the span loop's gap test and `write_pos` update. -/
+theorem source_span_loop_tie (m : Mover) (f : Bytes) (s : Span) (rest : List Span) (w : Nat) :
+    compactLoopW m f (s :: rest) w =
+      if CompactionSrc.gap_test s.off w = true then
+        match compactInPlaceW m f s.off w s.len with
+        | (f', m', true) => compactLoopW m' f' rest (CompactionSrc.write_pos_next w s.len)
+        | (f', m', false) => (f', m', w, false)
+      else compactLoopW m f rest (CompactionSrc.write_pos_next w s.len) :=
+  Proofs.CompactionTie.span_loop_tie m f s rest w
+
+open Cascette.Generated in
+/-- `plan_archive_merge`: source test, minimum of two sources, sort key, destination cursor
+starting at the destination's own used bytes, fit test. -/
+theorem source_planner_tie (p : Nat → Bool) (segSize : Nat) (segs : List Seg) (s : Seg)
+    (r : List Seg) (i : Nat) :
+    (collectSources p (s :: r) i =
+      if CompactionSrc.is_source s.frozen (p s.used) s.used = true then
+        (u16idx i, s.used) :: collectSources p r (i + 1)
+      else collectSources p r (i + 1)) ∧
+    (planMerge p segSize segs =
+      (let sources := collectSources p segs 0
+       if sources.length < CompactionSrc.min_sources then some {}
+       else
+         match sortSources sources with
+         | [] => some {}
+         | first :: rest =>
+           greedy (first :: rest) segSize rest 0 (CompactionSrc.dest_cursor_init first.2) {})) :=
+  ⟨Proofs.CompactionTie.collect_tie p s r i, Proofs.CompactionTie.plan_shape_tie p segSize segs⟩
+
+open Cascette.Generated in
+/-- `should_compact_archive`: non-empty, utilisation test, size above the extracted floor. -/
+theorem source_arch_tie (utilLow : Nat → Nat → Bool) (a : Arch) :
+    archCompact utilLow a =
+      if CompactionSrc.arch_should a.used a.mapped (utilLow a.used a.mapped) = true then
+        if a.used < a.mapped then
+          ({ file := setLen a.file a.used, mapped := a.used, used := a.used }, 1, a.mapped - a.used)
+        else (a, 1, 0)
+      else (a, 0, 0) :=
+  Proofs.CompactionTie.arch_should_tie utilLow a
+
 /-! ## hypotheses are satisfiable / the recorded witnesses (instances, not new claims) -/
 
 /-- a non-trivial instance of the hypotheses of `compact_eq_concat_live_partial`: unsorted input,
@@ -430,6 +522,43 @@ example : ([⟨8, 4⟩, ⟨2, 3⟩, ⟨8, 0⟩] : List Span) ≠ [] ∧ Disjoint
     OffsetOrdered [⟨2, 3⟩, ⟨8, 0⟩, ⟨8, 4⟩] := by
   refine ⟨by simp, by unfold Disjoint; decide, by unfold InBounds; decide, by decide, ?_⟩
   unfold OffsetOrdered; decide
+
+/-- `overflowing_or_overlapping_refused`: both ways to fail its hypothesis occur — an overflowing
+list without any overlap, and an overlapping list without overflow. -/
+example : ¬ (NoOverflow [⟨2 ^ 64 - 1, 1⟩] ∧ Disjoint [⟨2 ^ 64 - 1, 1⟩]) ∧
+    Disjoint [⟨2 ^ 64 - 1, 1⟩] ∧
+    ¬ (NoOverflow [⟨0, 5⟩, ⟨4, 1⟩] ∧ Disjoint [⟨0, 5⟩, ⟨4, 1⟩]) ∧ NoOverflow [⟨0, 5⟩, ⟨4, 1⟩] := by
+  refine ⟨fun h => ?_, by unfold Disjoint; decide, fun h => ?_, ?_⟩
+  · have := h.1 ⟨2 ^ 64 - 1, 1⟩ List.mem_cons_self
+    simp only at this
+    omega
+  · have := h.2
+    unfold Disjoint at this
+    revert this
+    decide
+  · intro s hs
+    simp only [List.mem_cons, List.not_mem_nil, or_false] at hs
+    rcases hs with rfl | rfl <;> simp only <;> omega
+
+/-- `compact_eq_concat_live_u64` / `bytes_saved_truthful_u64`: an instance with a gap, computed
+through the wrapping model (7-byte file, live spans (4,2) and (1,2) given out of order). -/
+example (m : Mover) : extractCompactU64 m [10, 11, 12, 13, 14, 15, 16] [⟨4, 2⟩, ⟨1, 2⟩] =
+    ⟨[11, 12, 14, 15], some 3⟩ := by
+  have := compact_eq_concat_live_u64 m [10, 11, 12, 13, 14, 15, 16] [⟨4, 2⟩, ⟨1, 2⟩]
+    [⟨1, 2⟩, ⟨4, 2⟩] (by decide) (by unfold Disjoint; decide) (by unfold InBounds; decide)
+    (by decide) (by unfold OffsetOrdered; decide)
+  simpa [concatLive, slice] using this
+
+/-- `plan_execution_in_order_safe`: its hypotheses hold for the population of
+`plan_source_may_also_be_target` (three moves, one segment both source and destination) with
+segment files of the right lengths. -/
+example : ∃ (plan : Plan) (files : List Bytes), planMerge (fun _ => true) 100
+      [⟨true, 10⟩, ⟨true, 20⟩, ⟨true, 60⟩, ⟨true, 70⟩, ⟨true, 80⟩] = some plan ∧
+    plan.moves.length = 3 ∧
+    files.map List.length =
+      ([⟨true, 10⟩, ⟨true, 20⟩, ⟨true, 60⟩, ⟨true, 70⟩, ⟨true, 80⟩] : List Seg).map Seg.used :=
+  ⟨_, [List.replicate 10 1, List.replicate 20 2, List.replicate 60 3, List.replicate 70 4,
+      List.replicate 80 5], plan_source_may_also_be_target, rfl, by decide⟩
 
 /-- the span list refused before commit "validate_spans orders equal offsets by length" is
 accepted now (instance of `validate_iff_disjoint`; replayed on the real code by
